@@ -965,3 +965,48 @@ package hotline
 //@ func (f *Field) DecodeObfuscatedString() (r string)
 //@   property C01 C15
 //@   before call hotline.EncodeString assert same(arg0, f.Data)
+
+// ---------------------------------------------------------------------------------
+// C07 / C09 / C20: the file store is a pass-through.  Every method hands the operating system
+// exactly the path(s), flags and data it was given -- the containment, append / no-truncate and
+// atomic-replace arguments are made about the values the callers pass, so they hold for what
+// reaches the OS only if nothing is rewritten here.
+
+//@ func (fs *OSFileStore) Mkdir(name string, perm os.FileMode) (err error)
+//@   property C07
+//@   before call os.Mkdir assert arg0 == name && arg1 == perm
+//@ func (fs *OSFileStore) Stat(name string) (fi os.FileInfo, err error)
+//@   property C07
+//@   before call os.Stat assert arg0 == name
+//@ func (fs *OSFileStore) Open(name string) (f *os.File, err error)
+//@   property C07 C08
+//@   before call os.Open assert arg0 == name
+//@ func (fs *OSFileStore) RemoveAll(name string) (err error)
+//@   property C07
+//@   before call os.RemoveAll assert arg0 == name
+//@ func (fs *OSFileStore) Remove(name string) (err error)
+//@   property C07
+//@   before call os.Remove assert arg0 == name
+//@ func (fs *OSFileStore) Create(name string) (f *os.File, err error)
+//@   property C07
+//@   before call os.Create assert arg0 == name
+//@ func (fs *OSFileStore) WriteFile(name string, data []byte, perm fs.FileMode) (err error)
+//@   property C07
+//@   before call os.WriteFile assert arg0 == name && same(arg1, data) && arg2 == perm
+//@ func (fs *OSFileStore) Rename(oldpath string, newpath string) (err error)
+//@   property C07 C09
+//@   before call os.Rename assert arg0 == oldpath && arg1 == newpath
+//@ func (fs *OSFileStore) ReadFile(name string) (b []byte, err error)
+//@   property C07
+//@   before call os.ReadFile assert arg0 == name
+//@ func (fs *OSFileStore) OpenFile(name string, flag int, perm fs.FileMode) (f *os.File, err error)
+//@   property C07 C09
+//@   before call os.OpenFile assert arg0 == name && arg1 == flag && arg2 == perm
+
+// C14: a server-initiated transaction is a request (not a reply) of the given type, addressed to
+// the given client, carrying exactly the given fields, with no error code.
+//@ func NewTransaction(t TranType, clientID ClientID, fields ...Field) (r Transaction)
+//@   property C12 C13 C14
+//@   ensures r.Type == t && r.ClientID == clientID && same(r.Fields, fields) && r.IsReply == 0 && r.Flags == 0
+//@   ensures bytes(r.ErrorCode) == zeros(4) && r.readOffset == 0
+//@   modifies nothing
